@@ -7,6 +7,8 @@ import (
 	"html"
 	"strconv"
 	"strings"
+	"unicode"
+	"unicode/utf8"
 
 	vuego "github.com/titpetric/vuego"
 )
@@ -170,7 +172,7 @@ func c13MkEnv(v int) map[string]TV {
 		"n65": tvI(65), "i64": i64(12), "i32": {K: "int32", I: 6}, "u8": {K: "uint8", U: 200},
 		"f1": tvF([]float64{2.5, 1.5, 0.75, 4.5}[v]), "f2": tvF([]float64{0.5, 0.25, 0.5, 1.5}[v]), "f32": {K: "float32", F: 1.5}, "f32b": {K: "float32", F: 1.1}, "fi": tvF(4), "fbig": tvF(2500000), "fsmall": tvF(0.00001),
 		"s1": tvS([]string{"hi", "yo", "abc", "Hi"}[v]), "s2": tvS("bob ray"), "se": tvS(""), "sp": tvS("  pad  "),
-		"selfname": tvS("selfname"), "sn": tvS("42"), "sf": tvS("2.5"), "sb": tvS("true"), "sneg": tvS("-3"), "sbad": tvS("bad"), "sx": tvS("a<b&c"),
+		"selfname": tvS("selfname"), "sn": tvS("42"), "sf": tvS("2.5"), "sb": tvS("true"), "sneg": tvS("-3"), "sbad": tvS("bad"), "sx": tvS("a<b&c"), "su": tvS("élan vital"),
 		"bt": tvB(true), "bf": tvB(false), "b1": tvB(v&1 == 1), "b2": tvB(v&2 == 2),
 		"nl": tvNil(), "t": tvS("tee"), "hNil": tvNil(), // hNil: a nil variable named like a registered function
 		"m": tvMap(map[string]TV{"x": tvI(5 + v), "name": tvS("bob"), "ok": tvB(true), "off": tvB(false), "r": tvF(1.25),
@@ -741,11 +743,11 @@ func c13TitleOK(s string) bool {
 		return false
 	}
 	prevSpace := true
-	for i := 0; i < len(s); i++ {
+	for _, r := range s {
 		switch {
-		case s[i] >= 'a' && s[i] <= 'z':
-			prevSpace = false
-		case s[i] == ' ' && !prevSpace:
+		case unicode.IsLower(r) && unicode.IsLetter(r) && unicode.ToLower(unicode.ToUpper(r)) == r && unicode.ToUpper(r) != r:
+			prevSpace = false // a lower-case letter with a single-rune upper-case form (a-z, é, ü, ж ...)
+		case r == ' ' && !prevSpace:
 			prevSpace = true
 		default:
 			return false
@@ -775,7 +777,8 @@ func init() {
 		}
 		ws := strings.Split(a[0].S, " ")
 		for i, w := range ws {
-			ws[i] = strings.ToUpper(w[:1]) + w[1:]
+			first, size := utf8.DecodeRuneInString(w)
+			ws[i] = string(unicode.ToUpper(first)) + w[size:]
 		}
 		return c13VS(strings.Join(ws, " ")), ok
 	}})
